@@ -1,6 +1,7 @@
 package mcp
 
 import (
+	"fmt"
 	"context"
 	"errors"
 	"log/slog"
@@ -17,7 +18,8 @@ type zzC07Env struct {
 	ss        *ServerSession
 	discovers int
 	inits     int
-	permissive bool     // the peer is not this SDK: it answers discover with an arbitrary version list
+	permissive bool
+	discoverOutcome int     // the peer is not this SDK: it answers discover with an arbitrary version list
 	peerList  []string
 }
 
@@ -35,6 +37,14 @@ func zzC07Router(ctx context.Context, method string, req Request) (Result, error
 		env.discovers++
 		p := req.GetParams().(*DiscoverParams)
 		if env.permissive {
+			switch env.discoverOutcome {
+			case 1: // a server that predates server/discover
+				return nil, fmt.Errorf("%w: %q", jsonrpc2.ErrMethodNotFound, method)
+			case 2: // discovery unavailable for any other reason
+				return nil, errors.New("discover: upstream unavailable")
+			case 3: // refuses the version asked for and says which ones it serves
+				return nil, &jsonrpc.Error{Code: CodeUnsupportedProtocolVersion, Message: "unsupported protocol version", Data: vJSON(UnsupportedProtocolVersionData{Supported: env.peerList})}
+			}
 			return &DiscoverResult{SupportedVersions: env.peerList}, nil
 		}
 		zzC06.meta = p.Meta
@@ -138,14 +148,32 @@ func zzC07ArbitraryPeer() {
 			env.peerList = append(env.peerList, v)
 		}
 	}
+	env.discoverOutcome = vChoice("discoverOutcome", 4) // a list / method not found / some other failure / -32022 with a list
+	listsModern := false
+	for _, v := range env.peerList {
+		if v == protocolVersion20260728 {
+			listsModern = true
+		}
+	}
 	c := NewClient(&Implementation{Name: "c", Version: "v"}, nil)
 	c.sendingMethodHandler_ = zzC07Router
 	cs, err := c.Connect(context.Background(), &InMemoryTransport{}, &ClientSessionOptions{ProtocolVersion: requested})
+	vAssert(env.discovers <= 2, "C07.at-most-two-discover-attempts")
+	modernRequested := requested == "" || requested >= protocolVersion20260728
+	if modernRequested && (env.discoverOutcome != 0 || !listsModern) {
+		// discovery unavailable, failing, or without modern overlap: the client falls back to the initialize
+		// handshake (which this peer serves) instead of giving up or trusting the discover answer
+		vAssert(err == nil && env.inits == 1, "C07.falls-back-to-initialize-when-discovery-gives-nothing")
+		vReach("fell-back")
+	}
 	if err != nil {
 		vReach("failed")
 		return
 	}
 	got := cs.state.InitializeResult.ProtocolVersion
 	vAssert(zzIsSupported(got), "C07.negotiated-version-supported-by-the-sdk")
+	if env.inits == 1 {
+		vAssert(got < protocolVersion20260728, "C07.handshake-yields-a-legacy-version")
+	}
 	vReach("end")
 }
